@@ -3,13 +3,18 @@
    read byte by byte, split at the first colon, TrimSpace, Atoi, Content-Length body) - is
    modelled byte exactly; Pack hands an http.Header to net/http: the lines it writes are the
    section variable [hdr_write] over the concrete list of Set/Add calls, url.Parse is
-   [url_parse], the JSON form of a status [st_json]/[st_unjson], the filter registry by name
+   [url_parse] and URL.EscapedPath of the parsed service method [url_esc] (the request line
+   carries the ESCAPED path - repaired code), the JSON form of a status [st_json]/[st_unjson], the filter registry by name
    [by_name]. Contract on the header lines (hdr_contract, checked on the implementation for
    every generated case by the correspondence): well-formed lines within the limit, each
    protocol header (X-Seq, X-Mtype, Content-Type, Content-Length, X-Content-Encoding) exactly
-   once with the value Pack set. Supported field set: requests (req_ok): call / auth-call, a
-   service method that net/url parses to itself as a plain path, without space or line feed
-   (http_method_unguarded_refuted), one of the five codecs with a content type of their own
+   once with the value Pack set. Supported field set: requests (req_ok m path): call / auth-call, a
+   service method that net/url parses to the path [path] without query and host and whose
+   escaped form - no blank, no line feed, hypotheses on the url library, exercised on the
+   implementation by the correspondence - parses back to [path]; what arrives as service
+   method is [path], i.e. the method itself whenever it is its own path (blanks, non-ASCII
+   bytes included; before the repair the decoded path went out raw and was cut at a blank:
+   http_method_unguarded_refuted, C05_http_raw_path_prefix_refuted), one of the five codecs with a content type of their own
    (http_codec_unguarded_refuted), no status; replies with status OK (resp_ok): reply /
    auth-reply, no service method (not carried); pipe: none or one gzip filter (pipe_ok).
    Metadata is mapped onto HTTP headers: what comes back is what the header lines yield
@@ -48,29 +53,29 @@ Proof. exact atoi_format. Qed.
 Print Assumptions C05_http_atoi_roundtrip.
 
 Theorem C05_http_request_roundtrip :
-  forall hdr_write url_parse st_json st_unjson by_name lim p m f size rest,
-  req_ok url_parse m -> pipe_ok by_name p ->
-  http_pack hdr_write url_parse st_json lim p m = Ok (f, size) ->
+  forall hdr_write url_parse st_json st_unjson by_name url_esc lim p m path f size rest,
+  req_ok url_parse url_esc m path -> pipe_ok by_name p ->
+  http_pack hdr_write url_parse url_esc st_json lim p m = Ok (f, size) ->
   (forall body' ops0, http_pipe p (m_body m) [] = Some (body', ops0) ->
      let L := hdr_write (ops_request ops0 m [] (blen body')) in
      hdr_contract lim L (m_seq m) (m_mtype m)
                   (content_type (m_codec m) (str "text/plain;charset=utf-8")) (blen body') (map hf_name p)
      /\ blen body' <= 4294967295
      /\ hs_size (pfold by_name L (mkHs x00 0 [] 0 x01 [] 0)) <= lim) ->
-  blen (first_req m) + 2 <= lim ->
+  blen (first_req url_esc m) + 2 <= lim ->
   exists L body',
-    f = first_req m ++ crlf ++ ser_lines L ++ crlf ++ body' /\
+    f = first_req url_esc m ++ crlf ++ ser_lines L ++ crlf ++ body' /\
     let st := pfold by_name L (mkHs x00 0 [] 0 x01 [] 0) in
     http_unpack url_parse st_unjson by_name lim (f ++ rest)
-    = Ok (mkMsg (m_seq m) (m_mtype m) (m_method m) status_zero (hs_meta st) (m_codec m) (m_body m),
-          pipe_ids_h p, final_size lim (hs_size st + 0 + blen (first_req m)), rest).
+    = Ok (mkMsg (m_seq m) (m_mtype m) path status_zero (hs_meta st) (m_codec m) (m_body m),
+          pipe_ids_h p, final_size lim (hs_size st + 0 + blen (first_req url_esc m)), rest).
 Proof. exact http_request_roundtrip_lemma. Qed.
 Print Assumptions C05_http_request_roundtrip.
 
 Theorem C05_http_response_roundtrip :
-  forall hdr_write url_parse st_json st_unjson by_name lim p m f size rest,
+  forall hdr_write url_parse st_json st_unjson by_name url_esc lim p m f size rest,
   resp_ok m -> pipe_ok by_name p ->
-  http_pack hdr_write url_parse st_json lim p m = Ok (f, size) ->
+  http_pack hdr_write url_parse url_esc st_json lim p m = Ok (f, size) ->
   (forall body' ops0, http_pipe p (m_body m) [] = Some (body', ops0) ->
      let L := hdr_write (ops_response ops0 m (content_type (m_codec m) (str "text/plain")) (blen body')) in
      hdr_contract lim L (m_seq m) (m_mtype m)
@@ -113,31 +118,42 @@ Theorem C05_http_method_unguarded_refuted :
 Proof. exact http_method_unguarded_refuted. Qed.
 Print Assumptions C05_http_method_unguarded_refuted.
 
+(* before the repair the decoded path went into the request line raw: "/a b" arrives as "/a" *)
+Theorem C05_http_raw_path_prefix_refuted :
+  exists path, nolf path = true /\
+    line_target (str "POST " ++ path ++ str " HTTP/1.1") = Some (str "/a") /\ str "/a" <> path.
+Proof. exact http_raw_path_prefix_refuted. Qed.
+Print Assumptions C05_http_raw_path_prefix_refuted.
+
 Theorem C05_http_codec_unguarded_refuted :
   exists c, body_codec (content_type c (str "text/plain;charset=utf-8")) <> c.
 Proof. exact http_codec_unguarded_refuted. Qed.
 Print Assumptions C05_http_codec_unguarded_refuted.
 
-(* non-vacuity: a guarded request, and header lines (as net/http writes them: sorted) that meet
-   the contract; the model's Unpack reads the frame back *)
+(* non-vacuity: a guarded request whose service method holds a blank (escaped in the request
+   line, with an instance of the url library's two functions on the strings involved), and
+   header lines (as net/http writes them: sorted) that meet the contract; the model's Unpack
+   reads the frame back with the same service method *)
 Example C05_http_example :
-  let m := mkMsg (-7) x01 (str "/home/test") status_zero [(str "X-Trace", str "v")] "j"%byte [x00; xff; x0a] in
+  let m := mkMsg (-7) x01 (str "/home/a b") status_zero [(str "X-Trace", str "v")] "j"%byte [x00; xff; x0a] in
   let L := [(str "Accept-Encoding", str "gzip"); (K_clen, str "3");
             (K_ctype, str "application/json;charset=utf-8"); (str "User-Agent", str "erpc-httproto/1.1");
             (K_mtype, str "1"); (K_seq, str "-7"); (str "X-Trace", str "v")] in
-  let up := fun t : bytes => Some (t, @nil byte, @nil byte) in
-  req_ok up m /\ pipe_ok (fun _ => None) [] /\
+  let up := fun t : bytes => if bytes_eqb t (str "/home/a%20b") then Some (str "/home/a b", @nil byte, @nil byte)
+                             else Some (t, @nil byte, @nil byte) in
+  let ue := fun t : bytes => if bytes_eqb t (str "/home/a b") then str "/home/a%20b" else t in
+  req_ok up ue m (str "/home/a b") /\ pipe_ok (fun _ => None) [] /\
   hdr_contract 1000 L (m_seq m) (m_mtype m) (content_type (m_codec m) (str "text/plain;charset=utf-8")) 3 [] /\
-  exists f size usize, http_pack (fun _ => L) up (fun _ => []) 1000 [] m = Ok (f, size) /\
+  exists f size usize, http_pack (fun _ => L) up ue (fun _ => []) 1000 [] m = Ok (f, size) /\
     http_unpack up (fun _ => Err) (fun _ => None) 1000 f
-    = Ok (mkMsg (-7) x01 (str "/home/test") status_zero
+    = Ok (mkMsg (-7) x01 (str "/home/a b") status_zero
                 [(str "Accept-Encoding", str "gzip"); (str "User-Agent", str "erpc-httproto/1.1"); (str "X-Trace", str "v")]
                 "j"%byte [x00; xff; x0a], [], usize, []).
 Proof.
-  intros m L up. split; [repeat split; try (left; reflexivity); reflexivity|].
+  intros m L up ue. split; [repeat split; try (left; reflexivity); reflexivity|].
   split; [left; reflexivity|]. split.
   - split; [|repeat split; reflexivity].
     repeat constructor; vm_compute; try reflexivity; intros H; discriminate H.
-  - remember (http_pack (fun _ => L) up (fun _ => []) 1000 [] m) as r eqn:E. vm_compute in E. subst r.
+  - remember (http_pack (fun _ => L) up ue (fun _ => []) 1000 [] m) as r eqn:E. vm_compute in E. subst r.
     eexists. eexists. eexists. split; [reflexivity|]. vm_compute. reflexivity.
 Qed.
